@@ -464,7 +464,7 @@ func c17Judge(what, field string, idx int, gerr error, slots []*big.Int, cerr er
 	return why
 }
 
-func uniqStrings(xs []string) []string {
+func uniqStrs17(xs []string) []string {
 	seen := map[string]bool{}
 	var out []string
 	for _, x := range xs {
@@ -602,7 +602,7 @@ func emitC17Types(out *Out, r *Rng, tier string) {
 				}
 			}
 		}
-		why = uniqStrings(why)
+		why = uniqStrs17(why)
 		out.Emit(Case{Op: "none", In: J{"types": names, "typeIRIs": iris, "attrs": attrs, "credentialOfType": j, "layout": layout, "schema": string(schemaOf[j]), "credential": string(doc)},
 			Impl: J{"built": bs[0].err == nil, "lookupsOK": nOK}, Prop: propOf(why), Tags: []string{"sibling-types", "layout:" + layout, fmt.Sprintf("types:%d", len(cs))}, NT: true})
 	}
@@ -624,7 +624,7 @@ func emitC17Types(out *Out, r *Rng, tier string) {
 		}
 	}
 	unknown = append(unknown, c17NearMiss(r, own.TypeIRI), c17NearMiss(r, own.TypeName), c17NearMiss(r, r.Pick([]string{own.TypeIRI, own.TypeName})))
-	for _, u := range uniqStrings(unknown) {
+	for _, u := range uniqStrs17(unknown) {
 		if u == own.TypeIRI || u == own.TypeName {
 			continue
 		}
@@ -659,7 +659,7 @@ func emitC17Types(out *Out, r *Rng, tier string) {
 			}
 		}
 		out.Emit(Case{Op: "none", In: J{"defined": J{"name": own.TypeName, "iri": own.TypeIRI, "attr": own.SerAttr}, "lookedUpAs": u, "schema": string(schema), "credential": string(doc)},
-			Impl: J{"built": cerr == nil, "lookupsOK": nOK}, Prop: propOf(uniqStrings(why)), Tags: []string{"type-unknown-to-schema"}, NT: true})
+			Impl: J{"built": cerr == nil, "lookupsOK": nOK}, Prop: propOf(uniqStrs17(why)), Tags: []string{"type-unknown-to-schema"}, NT: true})
 	}
 }
 
